@@ -411,9 +411,13 @@ func (obj *Real64) UnmarshalJSON(data []byte) error {
       }
       obj.Alloc(len(r.Hessian), 2)
       obj.Hessian = r.Hessian
+    } else {
+      // no derivatives in the document: drop those of the receiver
+      obj.Alloc(0, 0)
     }
     return nil
   } else {
+    obj.Alloc(0, 0)
     return json.Unmarshal(data, &obj.Value)
   }
 }
